@@ -334,6 +334,10 @@ def run(ctx):
     ctx.extra["burst_fail_count"] = bres.get("fail_count")
     pool.shutdown()
 
+    # extension: the session's service list (SessionList.tla), see design-notes/EXT-svclist.md
+    import ext_svclist
+    ext_svclist.run(ctx)
+
     ctx.extra["explanation"] = (
         "exhaustive TLC check of Session.client + SelectEndPoint (address lists, dial / authenticate / connected "
         "address, pool keyed by the connected address, closer registered in its own step, connection loss, explicit "
